@@ -95,6 +95,13 @@ def gen_cases(tier, seed):
                         if nd <= (1 if tier == "quick" else 2):
                             roots.append(dict(part="hist", fab=fab, reg=reg, tex="random", vol=vol, ng=ng, prm=prm, depth=2 if tier == "quick" else 3))
     keys += roots
+    # an axis-aligned initial texture typed with integer literals (an int64 array), and its
+    # float twin: the start-of-update snapshot of the first update is then integer-typed (seed C09f)
+    for fab in alph.FABRICS:
+        for tex in ("aligned_i64", "aligned"):
+            for prm in ("default", "M200"):
+                roots.append(dict(part="hist", fab=fab, reg="disl", tex=tex, vol="geometric", ng=8, prm=prm, depth=2 if tier == "quick" else 3))
+                keys.append(roots[-1])
     # the sliding rule applies after every update, whatever the regime (the two
     # viscosity-bound regimes and diffusion creep leave volumes alone, but grains that are
     # already below the threshold must still be floored and held): seed C09c
@@ -130,7 +137,7 @@ def run_kernel(key):
     thr = chi / n
     cl = res["clauses"]
     obs = []
-    osets = [("random", "random2"), ("aligned", "cluster"), ("single", "random")]
+    osets = [("random", "random2"), ("aligned", "cluster"), ("single", "random"), ("random", "aligned_i64")]  # last: an int64 reference snapshot
     for vname, (oa, ob) in itertools.product(VOLK, osets):
         f = kvol(vname, n, chi)
         if len(f) != n:
